@@ -202,8 +202,34 @@ def mkQueueHandler (persistent : Bool) : Handler QD where
   onObs := fun d toks => { d with mon := d.mon.onObs toks }
   onEnd := fun d => d.mon.verdict
 
+/-! ## soak (native scheduler): monitor only -/
+
+structure SD where
+  cfg : Check.SCfg := { cap := 1, wfr := false, persistent := false, singleConsumer := false }
+  evs : List Check.SEv := []   -- reversed
+  bad : Option String := none
+
+def soakHandler : Handler SD where
+  init := {}
+  onCase := fun d toks =>
+    { d with cfg := { cap := (kvInt toks "cap").getD 1, wfr := parseBool (kv toks "wfr"),
+                      persistent := parseBool (kv toks "persistent"), singleConsumer := (kvNat toks "consumers") == some 1 } }
+  onOp := fun d _ => (d, ["obs bad-op"])
+  onObs := fun d toks =>
+    match toks with
+    | "tr" :: rest =>
+      match Check.parseSEv rest with
+      | some e => { d with evs := e :: d.evs }
+      | none => { d with bad := some (" ".intercalate rest) }
+    | _ => d
+  onEnd := fun d =>
+    match d.bad with
+    | some b => [s!"prop soak=FAIL sig=C02/harness/unparsable-soak-event {b}"]
+    | none => Check.soakVerdict d.cfg d.evs.reverse
+
 end OtelVerif.Drivers.C02
 
 def main : IO UInt32 :=
   runMulti [("c02-cond", run OtelVerif.Drivers.C02.condHandler), ("c02-queue", run (OtelVerif.Drivers.C02.mkQueueHandler false)),
-            ("c02-persistent", run (OtelVerif.Drivers.C02.mkQueueHandler true))]
+            ("c02-persistent", run (OtelVerif.Drivers.C02.mkQueueHandler true)),
+            ("c02-soak", run OtelVerif.Drivers.C02.soakHandler)]
